@@ -1,5 +1,6 @@
 import MM.Props.C14
 import MM.Props.ScoreTie
+import MM.Props.HeapTie
 
 #print axioms MM.HeapDict.C14_sorted
 #print axioms MM.HeapDict.C14_length
@@ -12,3 +13,6 @@ import MM.Props.ScoreTie
 #print axioms MM.Search.tie_score_fields
 #print axioms MM.Search.tie_score_exprs
 #print axioms MM.Search.tie_score_order
+#print axioms MM.HeapDict.tie_heap_push
+#print axioms MM.HeapDict.tie_heap_result
+#print axioms MM.HeapDict.tie_heap_init
